@@ -44,7 +44,7 @@ func build(tb *model.Table, s *seen) *rux.Router {
 				s.byGet[n] = c.Param(n)
 			}
 			// what a handler does to its own Params afterwards must not reach any later request
-			if s.mutate && c.Params != nil {
+			if s.mutate && c.Params != nil { // (static routes get a nil map: nothing to write into)
 				for k := range c.Params {
 					c.Params[k] = "overwritten-by-an-earlier-handler"
 				}
@@ -92,6 +92,12 @@ func checkProbe(r *rux.Router, s *seen, tb *model.Table, method, path string, ta
 		if d.P.IsStatic() {
 			if len(ps) != 0 {
 				return fmt.Sprintf("static route exposes parameters %v: %s", ps, ctx)
+			}
+			// ... and its handlers see none, whatever earlier handlers did with theirs
+			s.n = 0
+			r.ServeHTTP(httptest.NewRecorder(), &http.Request{Method: method, URL: reqURL(tb, path), Header: http.Header{}})
+			if s.n != 1 || s.name != d.Name() || len(s.params) != 0 {
+				return fmt.Sprintf("ServeHTTP: handler of %q ran %d times and saw Params %v on a static route: %s", s.name, s.n, s.params, ctx)
 			}
 			continue
 		}
